@@ -217,6 +217,9 @@ def directed_pairs(rng) -> list[dict]:
         {"tag": "stash:FuseConvPad rejected-after-write then ok", "history": [M("rewrite", cp_bad), M("rewrite", cp_refl)], "target": M("rewrite", cp_ok)},
         {"tag": "stash:FuseConvPad ok then rejected", "history": [M("rewrite", cp_ok)], "target": M("rewrite", cp_refl)},
         {"tag": "stash:Flatten2Reshape known then unknown", "history": [M("rewrite", fl_a)], "target": M("rewrite", fl_b)},
+        {"tag": "stash:LayerNorm commuted rules share one instance", "history": [M("rewrite", ln1, rules="layer_norm_commute"), M("rewrite", ln2, rules="layer_norm")], "target": M("rewrite", ln1, rules="layer_norm_commute")},
+        {"tag": "evalctx:raising default_as body then eager script", "history": [{"k": "evalctx", "b": 3, "body": ["s", [2, ["r"]]]}],
+         "target": {"k": "evalctx", "b": 1, "body": ["s", [2, ["s"]], "s"]}},
         {"tag": "stash:LayerNorm eps then other eps", "history": [M("rewrite", ln1, rules="layer_norm")], "target": M("rewrite", ln2, rules="layer_norm")},
         {"tag": "failing:rewrite aborted by an exception then ok", "history": [M("rewrite", boom, rules="default_then_boom"), M("rewrite", boom, rules="boom_first")], "target": M("rewrite", rr_ok)},
         {"tag": "fold:modified then unmodified (shared pass)", "history": [M("fold", fold_mod)], "target": M("fold", fold_keep)},
@@ -254,6 +257,7 @@ class Checker:
         self.prop_failures: list[tuple[dict, str]] = []  # (replay case, what)
         self.tie_failures: list[tuple[dict, str]] = []
         self.d15_hits: list[tuple[dict, str]] = []
+        self.n1_hits: list[tuple[dict, str]] = []
         self.events: Counter = Counter()
         self.names: dict = {}
         self.ctrls: dict = {}
@@ -334,7 +338,14 @@ class Checker:
                 if res.get("function_unchanged") is False:
                     self.prop_failures.append((case, "to_function_proto() differs before/after to_model_proto(): the function was modified"))
                 if res.get("after_mutation_equal") is False:
-                    self.prop_failures.append((case, "protos changed after mutating globals referenced by the script"))
+                    if op.get("inplace_payload_in_body"):
+                        self.n1_hits.append((case, (
+                            f"protos changed after IN-PLACE mutation of a numpy array / TensorProto global used as a tensor constant: "
+                            f"body {op.get('rbody')}, mutations {op.get('mutate')}: Constant payloads {res.get('consts')} -> {res.get('consts_after')}")))
+                    else:
+                        self.prop_failures.append((case, "protos changed after mutating globals referenced by the script"))
+                if "rbody" in op and "consts" in res:
+                    self.ndarray_case(op, res, case)
                 if "after_mutation_equal" in res:
                     self.stats["global_mutations_checked"] += 1
                 if "override_digest" in res:
@@ -347,15 +358,20 @@ class Checker:
                     self.globals_case(op, res, case)
                 for kind_, outs in res.get("ctrl_outputs", []):
                     self.stats[f"ctrl_{kind_}_outputs_{min(len(outs), 5)}"] += 1
-            elif op["k"] == "pattern":
+            elif op["k"] in ("pattern", "evalctx"):
+                # `evaluator.default_as` is the same state machine as `pattern_builder` (swap a module global, try/finally)
+                self.stats["evalctx" if op["k"] == "evalctx" else "pattern"] += 1
                 line = G.pattern_line(1, 0, op)
                 exp = f"global={res['global']} seen={csvs(res['seen'])} raised={int(res['raised'])}"
                 self.model_lines.append((line, exp, case))
                 self.stats["pattern_raised" if res["raised"] else "pattern_normal"] += 1
                 if res["global"] != 0:
-                    self.prop_failures.append((case, f"_pattern_builder global not restored after `with pattern_builder(...)` (left at dom{res['global']})"))
+                    which = "_pattern_builder" if op["k"] == "pattern" else "evaluator._default_evaluator"
+                    self.prop_failures.append((case, f"{which} global not restored after the context manager exited (left at {res['global']})"))
             elif op["k"] == "opset":
                 self.model_lines.append((f"intern - Opset/{op['domain'] or '~'}/{op['version']}".replace("/~/", "//"), None, case))
+                if res.get("subclass") != [True, True, ["", 18], ["", 18]]:
+                    self.prop_failures.append((case, f"Opset cache across subclasses: Opset18() / Opset('',18) observations {res.get('subclass')}"))
                 if res["fields"] != [op["domain"], op["version"]] or not res["same_instance"]:
                     self.prop_failures.append((case, f"Opset({op['domain']!r},{op['version']}) returned an object with fields {res['fields']}"))
             elif op["k"] == "model" and op.get("op") == "fold" and not res.get("err"):
@@ -408,6 +424,27 @@ class Checker:
                 for r in dict.fromkeys(op["fns"])
             )
             self.model_lines.append((G.kw_line(op), ("kw", full["eff"], full["plain"], dicts, defaults, keys), case))
+
+    def ndarray_case(self, op: dict, res: dict, case: dict) -> None:
+        pre = sexp_prefix(op["rbody"])
+        g = ";".join(f"{k}={v}" for k, v in op["rglobals"].items())
+        c0 = ";".join(f"{i}={v}" for i, v in enumerate(op["cells0"]))
+        c1 = ";".join(f"{i}={v}" for i, v in enumerate(op["cells1"]))
+        first = lambda cs: csvs([c[0] for c in cs])  # noqa: E731  (arrays are constant-filled)
+        copy = int(not self.rows["converter"]["constByRefSites"])
+        self.model_lines.append((f"globr {pre} {g} {c0} {c1}", f"before={first(res['consts'])} after={first(res.get('consts_after', res['consts']))} copy={copy}", case))
+        self.stats["ndarray_scripts"] += 1
+        self.stats["ndarray_scripts_inplace_touching_body" if op.get("inplace_payload_in_body") else "ndarray_scripts_not_touching"] += 1
+        if op.get("in_loop"):
+            self.stats["ndarray_scripts_in_loop_body"] += 1
+        mentioned = {t[2:] for t in pre.split(",") if t.startswith("g:")}
+        touched = {m[0] for m in op["mutate"]} & mentioned
+        if res.get("eager_before") != res.get("eager_after"):
+            what = f"eager call changed after post-decoration mutation of globals {sorted(touched)}: body {op['rbody']}, before {res.get('eager_before')}, after {res.get('eager_after')}"
+            if touched:
+                self.d15_hits.append((case, what))
+            else:
+                self.prop_failures.append((case, "eager result changed although no global mentioned by the body was mutated: " + what))
 
     def globals_case(self, op: dict, res: dict, case: dict) -> None:
         g0 = dict(op["globals"])
@@ -632,10 +669,10 @@ def main(run: core.Run) -> None:
             for cls in bad_rows:  # search first where the table says the discipline is broken
                 pairs += focused_pairs(run.rng, cls, 60)
             pairs += gen_pairs(run.rng, n_targets, n_hist)
-            for k in range(0, len(pairs), 60):
-                chk.differential(pairs[k : k + 60])
-                if run.tier == "quick" and time.time() - t_tie > 75:
-                    chk.stats["quick_budget_cut_pairs"] = len(pairs) - k - 60
+            for k in range(0, len(pairs), 40):
+                chk.differential(pairs[k : k + 40])
+                if run.tier == "quick" and time.time() - t_tie > 60:
+                    chk.stats["quick_budget_cut_pairs"] = max(0, len(pairs) - k - 40)
                     break
             # reused Converter object (internal API): model = implementation
             f1 = "def f1(x: FLOAT[3]):\n    y = x + 1.0\n    return y\n"
@@ -698,6 +735,12 @@ def main(run: core.Run) -> None:
         else:
             chk.prop_failures.append((case, what))
     chk.stats["known_D15"] = len(chk.d15_hits)
+    for case, what in chk.n1_hits[:1]:
+        if "C14-N1" in findings:
+            run.known("C14-N1", what)
+        else:
+            chk.prop_failures.append((case, what))
+    chk.stats["known_C14-N1"] = len(chk.n1_hits)
     if chk.prop_failures:
         chk.prop_failures.sort(key=lambda p: (len(p[0].get("history", [])), len(json.dumps(p[0]))))
         case, what = chk.prop_failures[0]
